@@ -79,7 +79,7 @@ Proof. exact fill_regions_follow_the_layout. Qed.
 
 Theorem C08_fill_skip_loops_bounded :
   (forall r, In r fill_regions -> fr_skip r = "sc"%string \/ fr_skip r = "ri&bound"%string) /\
-  (forall k l x, In (k, l) sc_assignments -> In x l -> x = "0"%string \/ x = "ci + 1"%string) /\
+  (forall k l x, In (k, l) sc_assignments -> In x l -> x = "0"%string \/ x = "ci+1"%string) /\
   (forall l1 l2 w ri, (0 <= ri)%Z -> (Dtw.band_hi l1 l2 w ri <= Dtw.band_hi l1 l2 w (ri + 1))%Z).
 Proof.
   split; [exact skip_loops_are_bounded|]. split; [exact sc_is_zero_or_the_next_column|exact cell_loop_bound_monotone].
